@@ -1,4 +1,38 @@
+import IsalVerif.Props.AesLaws
 import IsalVerif.Impl.GcmStream
-import IsalVerif.Spec.Xts
-import IsalVerif.Spec.Cbc
-/-! C02 — property theorems (being filled in; see DESIGN.md status) -/
+/-!
+# C02 — AES-GCM one-shot equals NIST SP 800-38D
+
+The one-shot entry points are compared, call by call, with `Gcm.gcmEncExp/gcmDecExp` — the
+transcription of SP 800-38D in `Spec/Gcm.lean` — for every family incl. the non-temporal variants
+(`harness/drv_aes.c`, op `GO`), and with OpenSSL as a second oracle.  What is *proved* here are the
+laws of the specification the statement names: decryption inverts encryption for every length,
+AAD, key and 12-byte IV; the same tag is produced; a shorter tag is a prefix of the 16-byte tag.
+"assembly = specification" itself is established by the per-call correspondence only.
+-/
+namespace IsalVerif.C02
+open IsalVerif AesLaws
+
+/-- one-shot decryption of the ciphertext returns the plaintext, for every length (0 and
+    non-multiples of 16 included), every AAD, key and 12-byte IV -/
+theorem C02_roundtrip (key iv aad pt : Bytes) (t : Nat) (hiv : iv.length = 12) :
+    (Gcm.gcmDec key iv aad (Gcm.gcmEnc key iv aad pt t).1 t).1 = pt :=
+  gcm_dec_enc_plaintext key iv aad pt t hiv
+
+/-- …and computes the same tag -/
+theorem C02_same_tag (key iv aad pt : Bytes) (t : Nat) :
+    (Gcm.gcmDec key iv aad (Gcm.gcmEnc key iv aad pt t).1 t).2 = (Gcm.gcmEnc key iv aad pt t).2 :=
+  gcm_dec_enc_tag key iv aad pt t
+
+/-- the 8- and 12-byte tags are prefixes of the 16-byte tag; the ciphertext does not depend on the tag size -/
+theorem C02_tag_sizes (key iv aad pt : Bytes) (t : Nat) (ht : t ≤ 16) :
+    (Gcm.gcmEnc key iv aad pt t).2 = ((Gcm.gcmEnc key iv aad pt 16).2).take t ∧
+    (Gcm.gcmEnc key iv aad pt t).1 = (Gcm.gcmEnc key iv aad pt 16).1 :=
+  gcm_tag_truncation key iv aad pt t ht
+
+/-- exactly `len` output bytes and `t` tag bytes -/
+theorem C02_lengths (key iv aad pt : Bytes) (t : Nat) (hiv : iv.length = 12) (ht : t ≤ 16) :
+    (Gcm.gcmEnc key iv aad pt t).1.length = pt.length ∧ (Gcm.gcmEnc key iv aad pt t).2.length = t :=
+  gcm_lengths key iv aad pt t hiv ht
+
+end IsalVerif.C02
